@@ -6,7 +6,7 @@ INVARIANTS TypeOK Contract
 CONSTANTS
   Kinds = {"token", "userpass", "kafka", "kafka_off"}
   CreateFaults = {0, 1, 2, 3, 4, 5, 6, 95, 97, 98, 99}
-  ReadFaults = {0, 1}
+  ReadFaults = {0, 1, 2, 90}
   PauseFaults = {0, 1, 2}
   ResumeFaults = {0, 1, 2, 3, 99}
   DeleteFaults = {0, 1, 2, 3}
@@ -18,3 +18,6 @@ CONSTANTS
   MaskSasl = TRUE
   MaskOnReloadFail = TRUE
   NoDecodeEcho = TRUE
+  Spellings = {"canon", "cap", "upper", "mixed"}
+  MaskDecoded = TRUE
+  ReadFailIsError = TRUE
